@@ -41,7 +41,7 @@ Lines(f) ==
   \o << <<"blank">>, <<"close">> >>
 
 File0(n) == [id |-> n, kind |-> "table", color |-> FALSE, hf |-> FALSE, pages |-> 1, missing |-> FALSE, land |-> FALSE, tail |-> "none"]
-Init == files = <<>> /\ d = 0 /\ phase = "pick" /\ i = 1 /\ out = <<>> /\ wrote = FALSE /\ err = "none" /\ env = [alias |-> FALSE, rerun |-> FALSE]
+Init == files = <<>> /\ d = 0 /\ phase = "pick" /\ i = 1 /\ out = <<>> /\ wrote = FALSE /\ err = "none" /\ env = [alias |-> FALSE, rerun |-> FALSE, stale |-> FALSE, twin |-> FALSE]
 \* build the argument list one file (5 picks) at a time
 Pick == /\ phase = "pick"
         /\ \/ (/\ Len(files) < MaxFiles /\ d = 0
@@ -50,7 +50,9 @@ Pick == /\ phase = "pick"
                /\ UNCHANGED <<d, phase>>
                /\ UNCHANGED env)
            \/ (/\ d = 0 /\ phase' = "check" /\ UNCHANGED <<files, d>>
-               /\ \E a \in EnvSet, b \in EnvSet : env' = [alias |-> a /\ Len(files) >= 1, rerun |-> b /\ Len(files) >= 1])
+               \* stale: the output path already holds a longer file; twin: the LAST input is a byte copy of the first
+               /\ \E a \in EnvSet, b \in EnvSet, st \in EnvSet, tw \in EnvSet :
+                    env' = [alias |-> a /\ Len(files) >= 1, rerun |-> b /\ Len(files) >= 1, stale |-> st /\ ~a /\ Len(files) >= 1, twin |-> tw /\ Len(files) >= 2])
         /\ UNCHANGED <<i, out, wrote, err>>
 CheckExists == /\ phase = "check"
                /\ IF Len(files) = 0 THEN phase' = "done" /\ err' = err
@@ -61,8 +63,10 @@ CheckExists == /\ phase = "check"
 LastFont(ls) == LET S == {j \in 1..Len(ls) : IsFontLine(Cls(ls[j]))} IN IF S = {} THEN 0 ELSE CHOOSE j \in S : \A x \in S : x <= j
 StartIdx(ls, n) == IF n = 1 THEN 1 ELSE (IF LastFont(ls) = 0 THEN 1 ELSE LastFont(ls) + 2)
 EndIdx(ls, n) == IF n < Len(files) /\ Cls(ls[Len(ls)]) = "close" THEN Len(ls) - 1 ELSE Len(ls)
+\* the file actually read at position j (a twin of the first input at the last position when env.twin)
+Eff(j) == IF env.twin /\ j = Len(files) THEN files[1] ELSE files[j]
 AppendPart == /\ phase = "parts" /\ i <= Len(files)
-              /\ LET ls == Lines(files[i]) IN
+              /\ LET ls == Lines(Eff(i)) IN
                    out' = out \o SubSeq(ls, StartIdx(ls, i), EndIdx(ls, i))
                               \o (IF i < Len(files) THEN << <<"newpage", i>> >> ELSE <<>>)
               /\ i' = i + 1 /\ UNCHANGED <<files, d, phase, wrote, err, env>>
@@ -79,15 +83,15 @@ Balanced == (phase = "done" /\ wrote) =>
               /\ Depth(out, Len(out)) = 0
 ContentOf(ls) == SelectSeq(ls, LAMBDA x : Cls(x) = "content")
 RECURSIVE Expected(_)
-Expected(n) == IF n = 0 THEN <<>> ELSE Expected(n - 1) \o ContentOf(Lines(files[n]))
+Expected(n) == IF n = 0 THEN <<>> ELSE Expected(n - 1) \o ContentOf(Lines(Eff(n)))
 PagesInOrder == (phase = "done" /\ wrote) => ContentOf(out) = Expected(Len(files))
 \* every later input starts after a page break and restates its own paper line before its first content
 NewPageAndGeometry == (phase = "done" /\ wrote) =>
    \A n \in 2..Len(files) :
       \E a, b, c \in 1..Len(out) : /\ a < b /\ b < c
-                                   /\ out[a] = <<"newpage", n - 1>> /\ out[b] = <<"paper", n, 1>> /\ out[c] = Content(files[n], 1)
+                                   /\ out[a] = <<"newpage", n - 1>> /\ out[b] = <<"paper", Eff(n).id, 1>> /\ out[c] = Content(Eff(n), 1)
                                    /\ \A x \in (a + 1)..(c - 1) : Cls(out[x]) # "content"
-SingleUnchanged == (phase = "done" /\ wrote /\ Len(files) = 1) => out = Lines(files[1])
+SingleUnchanged == (phase = "done" /\ wrote /\ Len(files) = 1) => out = Lines(Eff(1))
 EmptyWritesNothing == (phase = "done" /\ Len(files) = 0) => ~wrote
 MissingRaises == (phase = "done" /\ \E j \in 1..Len(files) : files[j].missing) => (err = "FileNotFoundError" /\ ~wrote)
 Emit == phase = "done" => PrintT(ToJson([files |-> files, env |-> env, wrote |-> wrote, err |-> err,
